@@ -237,7 +237,12 @@ fn check(c: &Case, ctx: &Ctx) -> Outcome {
                 if (c.rc_mask as usize + samples.len()) % 2 == 0 && i % 3 != 1 {
                     fq += &format!("{name}\tsmp{i}.fa\n");
                 } else {
-                    fq += &format!("{name}\tsmp{i}_1.fastq\tsmp{i}_2.fastq\n");
+                    if i % 8 == 6 {
+                        // single-end reads listed as a pair: the same file in both columns is read twice
+                        fq += &format!("{name}\tsmp{i}_1.fastq\tsmp{i}_1.fastq\n");
+                    } else {
+                        fq += &format!("{name}\tsmp{i}_1.fastq\tsmp{i}_2.fastq\n");
+                    }
                 }
             }
             std::fs::write(dir.join("fq_list.txt"), fq).unwrap();
